@@ -1,0 +1,14 @@
+//! Access to `process_message` (`--cfg beetswap_verif`).
+
+use std::sync::Arc;
+
+use super::IncomingMessage;
+use crate::multihasher::MultihasherTable;
+use crate::proto::message::Message;
+
+pub(crate) async fn process_message<const S: usize>(
+    multihasher: Arc<MultihasherTable<S>>,
+    msg: Message,
+) -> Option<IncomingMessage<S>> {
+    super::process_message(multihasher, msg).await
+}
